@@ -173,8 +173,17 @@ def run(ctx: Ctx):
                f"{'overlaps the slice' if k else 'is contained in the slice'} = {sorted(want[k])}", rel, ch.line,
                sample=sorted(preds.get(k, [])))
     # tokens with a missing (-1) or inverted boundary are never kept
-    base_ok = any(isinstance(n, ast.Assign) and ">= 0" in u(n.value) and ".all(2)" in u(n.value)
-                  and "refs[..., 2] >= refs[..., 1]" in u(n.value) for n in own_nodes(ch.node))
+    from sa.astutil import oriented
+
+    def _base(v):
+        nonneg = any(isinstance(c, ast.Call) and isinstance(c.func, ast.Attribute) and c.func.attr == "all" and
+                     (oriented(c.func.value, lambda e: True) or (None, None, None))[0] == "ge" and
+                     u(oriented(c.func.value, lambda e: True)[2]) == "0" for c in ast.walk(v))
+        ordered = any((o := oriented(c, lambda e: _col_role(e, refs_names, slices_name) == "tok_end")) is not None
+                      and o[0] == "ge" and _col_role(o[2], refs_names, slices_name) == "tok_start"
+                      for c in ast.walk(v) if isinstance(c, ast.Compare))
+        return nonneg and ordered
+    base_ok = any(isinstance(n, ast.Assign) and _base(n.value) for n in own_nodes(ch.node))
     col.ob("G12", "S4", f"{where}::missing-boundaries-excluded", base_ok,
            "tokens with a negative (missing) boundary or end < start are not excluded before the slice test", rel, ch.line)
 
